@@ -463,7 +463,7 @@ def run_c03(spec):
 C14_OPS = ["createOffer", "createOffer", "createAnswer", "setLocal:offer", "setLocal:offer", "setLocal:offer-stale",
            "setLocal:answer", "setLocal:answer", "setLocal:answer-stale", "setLocal:answer-mismatched", "setLocal:implicit",
            "setRemote:offer", "setRemote:offer", "setRemote:offer", "setRemote:answer", "setRemote:answer",
-           "setRemote:mismatched", "setRemote:defective-offer", "setRemote:defective-answer", "close"]
+           "setRemote:mismatched", "setRemote:defective-offer", "setRemote:defective-answer", "close", "add-media"]
 DEFECTS = ["no-ufrag", "no-pwd", "no-rtcp-mux", "answer-actpass"]
 
 
@@ -479,6 +479,9 @@ def gen_c14(ch, spec):
         op = {"op": name, "side": ch.choice("wl", ["A", "B"]), "dt": ch.choice("wl", [0.0, 0.0, 0.01, 0.5, 5.0])}
         if "defective" in name:
             op["defect"] = ch.choice("wl", DEFECTS)
+            op["where"] = ch.choice("wl", ["all", "all", "first", "last", "last"])
+        if name == "add-media":
+            op["kind"] = ch.choice("wl", ["audio", "video"])
         if "mismatched" in name:
             op["how"] = ch.choice("wl", ["drop-section", "rename-mid", "extra-section"])
         if name == "close" and ch.chance("wl", 0.6):
@@ -495,6 +498,17 @@ def gen_c14(ch, spec):
             pos = pos + ch.index("wl", max(1, len(ops) - pos + 1))
             ops.insert(min(pos, len(ops)), s)
             pos += 1
+        if ch.chance("wl", 0.5):
+            # a second conversation, offered by the former answerer, optionally after it added media
+            tail = []
+            if ch.chance("wl", 0.6):
+                tail.append({"op": "add-media", "side": b, "kind": ch.choice("wl", ["audio", "video"]), "dt": 0.0})
+            tail += [{"op": "createOffer", "side": b, "dt": 0.0}, {"op": "setLocal:offer", "side": b, "dt": 0.0},
+                     {"op": "setRemote:offer", "side": a, "dt": 0.0}, {"op": "createAnswer", "side": a, "dt": 0.0},
+                     {"op": ch.choice("wl", ["setLocal:answer", "setLocal:answer", "setLocal:answer-mismatched"]), "side": a,
+                      "dt": 0.0, "how": "drop-section"},
+                     {"op": "setRemote:answer", "side": b, "dt": 0.0}]
+            ops += tail
     return cfg, ops
 
 
@@ -523,15 +537,32 @@ def mismatch(text, how):
     return join_sections(head, secs)
 
 
-def make_defective(text, defect):
+def make_defective(text, defect, where="all"):
+    """The defect in every media section, or only in the first / last one."""
     import re as _re
-    if defect == "no-ufrag":
-        return _re.sub(r"a=ice-ufrag:[^\r\n]*\r\n", "", text)
-    if defect == "no-pwd":
-        return _re.sub(r"a=ice-pwd:[^\r\n]*\r\n", "", text)
+
+    def spoil(t):
+        if defect == "no-ufrag":
+            return _re.sub(r"a=ice-ufrag:[^\r\n]*\r\n", "", t)
+        if defect == "no-pwd":
+            return _re.sub(r"a=ice-pwd:[^\r\n]*\r\n", "", t)
+        if defect == "no-rtcp-mux":
+            return t.replace("a=rtcp-mux\r\n", "")
+        return t.replace("a=setup:active", "a=setup:actpass").replace("a=setup:passive", "a=setup:actpass")
+    if where == "all":
+        return spoil(text)
+    head, secs = split_sections(text + "\r\n" if not text.endswith("\r\n") else text)
+    if not secs:
+        return text
     if defect == "no-rtcp-mux":
-        return text.replace("a=rtcp-mux\r\n", "")
-    return text.replace("a=setup:active", "a=setup:actpass").replace("a=setup:passive", "a=setup:actpass")
+        idx = [i for i, x in enumerate(secs) if x.startswith(("m=audio", "m=video"))]
+        if not idx:
+            return text
+        k = idx[0] if where == "first" else idx[-1]
+    else:
+        k = 0 if where == "first" else len(secs) - 1
+    secs[k] = spoil(secs[k])
+    return join_sections(head, secs)
 
 
 class C14World(PcWorld):
@@ -584,6 +615,15 @@ class C14World(PcWorld):
             call = pc.createAnswer
         elif name == "close":
             expect, new_state, call = "ok", "closed", pc.close
+        elif name == "add-media":
+            if st != "stable" or len(pc.getTransceivers()) >= 4:
+                return self.skip(op)
+            try:
+                self.ep[n].add_item({"kind": op.get("kind", "audio"), "how": "transceiver_kind", "direction": "sendrecv", "prefs": None})
+                self.probes["media_added"] += 1
+            except Exception as exc:  # noqa
+                self.violation("C14", "addTransceiver-raised:" + exc_tag(exc), repr(exc))
+            return
         elif name.startswith("setLocal:"):
             kind = name.split(":")[1]
             if kind == "implicit":
@@ -643,18 +683,25 @@ class C14World(PcWorld):
                 # the peer's sections must be the ones this side already has (same layouts by construction);
                 # a shorter re-offer than the established session is not a negotiable input
                 cur = pc.remoteDescription or pc.localDescription
-                if cur is not None and self.media_sections(cur.sdp) != self.media_sections(text):
-                    return self.skip(op)
+                if cur is not None:
+                    # the offer must continue the session this side already has (same sections, same mids, possibly
+                    # more): with reflected answers the two peers' histories can differ, and an offer from a peer
+                    # with another history is not a negotiable input
+                    have = [(x.kind, x.mid) for x in sdpmini.Sdp(cur.sdp).sections]
+                    offered = [(x.kind, x.mid) for x in sdpmini.Sdp(text).sections]
+                    if offered[:len(have)] != have:
+                        return self.skip(op)
                 if kind == "defective-offer":
                     if op["defect"] == "answer-actpass":
                         return self.skip(op)
-                    text2 = make_defective(text, op["defect"])
+                    text2 = make_defective(text, op["defect"], op.get("where", "all"))
                     if text2 == text:
                         return self.skip(op)
                     text = text2
                     expect = {"ValueError"} if legal else {"ValueError", "InvalidStateError"}
                 else:
                     expect, new_state = ("ok", "have-remote-offer") if legal else ({"InvalidStateError"}, st)
+                self._last_text = text
                 call = lambda: pc.setRemoteDescription(RTCSessionDescription(sdp=text, type="offer"))   # noqa: E731
             else:
                 legal = st == "have-local-offer"
@@ -672,7 +719,7 @@ class C14World(PcWorld):
                     text = mismatch(text, op.get("how", "rename-mid"))
                     expect = {"ValueError"} if legal else {"ValueError", "InvalidStateError"}
                 elif kind == "defective-answer":
-                    text2 = make_defective(text, op["defect"])
+                    text2 = make_defective(text, op["defect"], op.get("where", "all"))
                     if text2 == text:
                         return self.skip(op)
                     text = text2
@@ -695,6 +742,7 @@ class C14World(PcWorld):
                                "%s %s in state %s raised %r" % (n, name, st, exc))
                 return
             self.model[n] = new_state
+            self.after_accept(n, name, st, new_state)
             if pc.signalingState != new_state:
                 self.violation("C14", "wrong-state-after-legal-call:%s:%s" % (name, st),
                                "%s: signalingState %s, the JSEP table says %s" % (n, pc.signalingState, new_state))
@@ -726,6 +774,28 @@ class C14World(PcWorld):
             which = [w for w, a, b in zip(("signalingState", "localDescription", "remoteDescription"), before, after) if a != b]
             self.violation("C14", "rejected-call-had-side-effects:%s:%s:%s" % (name, st, ",".join(which)),
                            "%s %s in state %s raised %s but changed %s" % (n, name, st, got, which))
+
+    def after_accept(self, n, name, st, new_state):
+        """An accepted answer must mirror the offer that was pending (the statement: one that does not raises ValueError)."""
+        pc = self.ep[n].pc
+        pend = getattr(self, "pending_offer", None)
+        if pend is None:
+            pend = self.pending_offer = {}
+        if new_state == "have-local-offer" and pc.localDescription is not None:
+            pend[n] = pc.localDescription.sdp
+        elif new_state == "have-remote-offer" and pc.remoteDescription is not None:
+            pend[n] = getattr(self, "_last_text", None) or pc.remoteDescription.sdp
+        elif new_state == "stable" and st in ("have-local-offer", "have-remote-offer") and n in pend:
+            ans = pc.remoteDescription if st == "have-local-offer" else pc.localDescription
+            if ans is not None and ans.type == "answer":
+                o = [(x.kind, x.mid) for x in sdpmini.Sdp(pend[n]).sections]
+                a = [(x.kind, x.mid) for x in sdpmini.Sdp(ans.sdp).sections]
+                if o != a:
+                    self.violation("C14", "answer-not-matching-the-pending-offer-accepted:%s" % name,
+                                   "%s: pending offer sections %r, accepted answer sections %r" % (n, o, a))
+                else:
+                    self.probes["answers_matched_against_pending_offer"] += 1
+            pend.pop(n, None)
 
     def skip(self, op):
         self.probes["ops_skipped"] += 1
